@@ -18,6 +18,7 @@ import GbVerif.Proofs.X86SimBit
 import GbVerif.Proofs.X86SimAdc
 import GbVerif.Proofs.X86SimFlagOps
 import GbVerif.Proofs.X86SimMem
+import GbVerif.Proofs.X86SimMemAlu
 /-!
 C01 — translated blocks have the same architectural effect as the interpreter.
 (Structural facts first; the x86 model and per-template simulation lemmas are added by `Proofs/X86*.lean`.)
@@ -368,7 +369,7 @@ encoding `b0` with operand bytes `b1 b2` ends in a host state related to the reg
 `g` (cycles included), with the bus, the host stack and the status byte untouched.  The statement for ALL register-only
 encodings is `RegisterSimulation`; it is PROVED for the register-transfer family (70 encodings) and for the 8-bit
 arithmetic and logic on A with a register or immediate operand, flags included (48 encodings; ADC / SBC: 16 more, `SimulatesF`; INC / DEC r, SCF, CCF: 16 more), and RES / SET b,r of the
-CB page (112 encodings: `SimulatesCb`), LD r,(HL) / LD (HL),r and the accumulator loads / stores through BC, DE, HL+ / HL- through the bus helpers (21 encodings: `SimulatesMem`) and BIT b,r (56 encodings: `SimulatesCbF`), and otherwise carried by the
+CB page (112 encodings: `SimulatesCb`), LD r,(HL) / LD (HL),r and the accumulator loads / stores through BC, DE, HL+ / HL- through the bus helpers (21 encodings: `SimulatesMem`), the eight ALU operations on (HL) and BIT b,r (56 encodings: `SimulatesCbF`), and otherwise carried by the
 native differential and the exhaustive `c01.grid`. -/
 
 /-- the full statement for an encoding that touches no memory (not proved in general) -/
@@ -457,6 +458,16 @@ theorem simulation_mem_a_partial (b1 b2 : Nat) :
   ⟨sim_0a b1 b2, sim_1a b1 b2, sim_ldi_ldd false b1 b2, sim_ldi_ldd true b1 b2, sim_st_a false b1 b2, sim_st_a true b1 b2, sim_sti b1 b2⟩
 
 example : opcodeLdHl .A = 0x7e ∧ opcodeStHl .B = 0x70 := by decide
+
+
+/-- **simulation_mem_alu_partial**: ADD / SUB / AND / XOR / OR A,(HL) and CP (HL) for all states, ADC / SBC A,(HL) for all states
+whose F has a clear low nibble (8 encodings): the template reads the byte into dl with DE saved on the host stack, runs the
+register form of the operation (the same body lemmas as `simulation_alu_partial`) and pops DE back; the interpreter
+performs the same read -/
+theorem simulation_mem_alu_partial (b1 b2 : Nat) :
+    SimulatesMem 0x86 b1 b2 ∧ SimulatesMem 0x96 b1 b2 ∧ SimulatesMem 0xa6 b1 b2 ∧ SimulatesMem 0xae b1 b2 ∧ SimulatesMem 0xb6 b1 b2 ∧
+    SimulatesMem 0xbe b1 b2 ∧ SimulatesMemF 0x8e b1 b2 ∧ SimulatesMemF 0x9e b1 b2 :=
+  ⟨sim_86 b1 b2, sim_96 b1 b2, sim_a6 b1 b2, sim_ae b1 b2, sim_b6 b1 b2, sim_be b1 b2, sim_8e b1 b2, sim_9e b1 b2⟩
 
 /-- the opcodes covered are the SM83's: LD B,C = 0x41, LD A,n = 0x3E, LD SP,nn = 0x31, DEC HL = 0x2B -/
 example : opcodeLd8 .B .C = 0x41 ∧ opcodeLdI .A = 0x3e ∧ opcodeLd16 .SP = 0x31 ∧ opcodeDec16 .HL = 0x2b := by decide
